@@ -96,7 +96,19 @@ def unit_l0bits(tier, seed):
     return unit_l0bits.run(tier, seed)
 
 
+def unit_l1int(tier, seed):
+    import unit_l1
+    return unit_l1.run_int(tier, seed)
+
+
+def unit_l1enc(tier, seed):
+    import unit_l1
+    return unit_l1.run_enc(tier, seed)
+
+
 UNITS = {}
+UNITS['l1int'] = unit_l1int
+UNITS['l1enc'] = unit_l1enc
 UNITS['frame'] = unit_frame
 UNITS['sigtab'] = unit_sigtab
 UNITS['l0bits'] = unit_l0bits
